@@ -184,6 +184,19 @@ def dispatchCmp : Dispatch := fun W op args =>
     if B < 2 ∨ !(["add", "sub", "mul", "div", "sqr", "cubic", "sqrt", "addsub", "submul", "subsub"].contains o) then none
     let _ ← parseFloat B sa ea pa; let _ ← parseFloat B sb eb pb
     pure "ok true"
+  | "f.viabase", [src, dst, sa, ea] => do
+    -- a base-`src` float (src = dst^k) converted exactly to base `dst`: the canonical representation
+    -- of the same number, equal in every sense to the directly built one
+    let S ← src.toNat?; let D ← dst.toNat?
+    let k ← [(16, 2, 4), (8, 2, 3), (4, 2, 2), (16, 4, 2), (9, 3, 2), (27, 3, 3), (100, 10, 2)].findSome?
+      fun (t : Nat × Nat × Nat) => if t.1 = S ∧ t.2.1 = D then some t.2.2 else none
+    let sg ← parseInt sa; let ex ← parseDec ea
+    let x := (FRepr.mk sg (ex * (k : Int))).normalize D
+    let viaSrc := (FRepr.mk sg ex).normalize S          -- what from_parts in the source base holds
+    let y := (FRepr.mk viaSrc.signif (viaSrc.exp * (k : Int))).normalize D
+    let m := "ok " ++ intToHex y.signif ++ " " ++ decStr y.exp ++ " " ++ boolStr (fbigEq y x) ++ " "
+      ++ ordStr (reprCmpSameBase D (exactDigits D) y x none) ++ " " ++ ordStr (reprCmpSameBase D (exactDigits D) x y none)
+    pure (chk m ("ok " ++ intToHex x.signif ++ " " ++ decStr x.exp ++ " true eq eq"))
   | "f.routes", [sa, ea] => do
     let sg ← parseInt sa; let ex ← parseDec ea
     let x := (FRepr.mk sg ex).normalize 10
